@@ -405,6 +405,9 @@ pub fn dump<'tcx>(tcx: TyCtxt<'tcx>) -> (J, J, J) {
             fns.push((dp(tcx, did), f));
         } else {
             f.put("ty", J::s(ty_s(tcx.type_of(did).instantiate_identity().skip_norm_wip())));
+            if let DefKind::Static { mutability, .. } = kind {
+                f.put("mut", J::Bool(mutability.is_mut()));
+            }
             statics.push((dp(tcx, did), f));
         }
     }
